@@ -340,7 +340,7 @@ func c06Replay(c *Ctx) {
 			buf.ServeHTTP(w, req)
 		}))
 		method := pick(r, []string{"POST", "PUT", "POST", "PATCH"})
-		target := srv.URL + pick(r, []string{"/upload", "/a%2Fb/c", "/p?x=1&y=%20z", "/", "/semi;colon?q=a+b"})
+		target := srv.URL + pick(r, []string{"/upload", "/a%2Fb/c", "/p?x=1&y=%20z", "/", "/semi;colon?q=a+b", "/p?", "/dir/?"})
 		var rd io.Reader = bytes.NewReader(body)
 		if chunked {
 			rd = struct{ io.Reader }{rd} // hides the length: net/http sends it chunked
@@ -492,6 +492,14 @@ func c06InProcess(c *Ctx) {
 		req := httptest.NewRequest(pick(r, []string{"POST", "PUT"}), "http://front.test/upload", nil)
 		req.Body = io.NopCloser(struct{ io.Reader }{bytes.NewReader(body)})
 		req.ContentLength = -1
+		// a third of the cases declare a length that is not the body's (what a body-rewriting middleware in front of
+		// the buffer leaves behind, e.g. request decompression): the handler must still be told the true length
+		declared := int64(-1)
+		if i%3 == 1 && size >= 2 {
+			declared = pick(r, []int64{1, int64(size) / 2, int64(size) - 1, int64(size) + 7})
+			req.ContentLength = declared
+			c.Count("inprocess_misdeclared_lengths", 1)
+		}
 		req.TransferEncoding = nil
 		if r.IntN(3) == 0 {
 			req.ProtoMajor, req.ProtoMinor, req.Proto = 2, 0, "HTTP/2.0"
@@ -499,9 +507,9 @@ func c06InProcess(c *Ctx) {
 		rec := httptest.NewRecorder()
 		buf.ServeHTTP(rec, req)
 		c.Eval()
-		desc := map[string]any{"size": size, "attempts": nAttempts, "proto": req.Proto}
+		desc := map[string]any{"size": size, "attempts": nAttempts, "proto": req.Proto, "declared_length": declared}
 		if rec.Code != 200 || len(seenLen) != nAttempts {
-			c.Violation("exchange/failed", sfmt("in-process request with a body of unknown length (%d bytes): status %d, handler invoked %d times (expected %d)", size, rec.Code, len(seenLen), nAttempts), desc)
+			c.Violation("exchange/failed", sfmt("in-process request (%d-byte body, unknown or mis-declared length): status %d, handler invoked %d times (expected %d)", size, rec.Code, len(seenLen), nAttempts), desc)
 			return
 		}
 		for k := range seenLen {
